@@ -5,12 +5,17 @@
   Model: RdfModel/Model/Description.lean (`build`, `exportResources`, `newTriplesList`, `dbuild`, …),
   the code the driver runs. `Spec.Iso`/`Spec.IsoQ`: RdfModel/Spec/GraphIso.lean.
 
-  Status. The full statement (`flatten_export_all`, `export_terminates_all`,
-  `dataset_flatten_export_all`) is FALSE for the code as it is; the three witnesses below prove the
-  negations on the model, and the harness replays them on the Go code. What is proved for all inputs
-  is the statement under the decidable shape hypotheses `Acyclic1` (no cycle consisting solely of
-  once-referenced blank nodes) and `NoSharedAnonymized` (cross-graph), for all four option
-  combinations and every map iteration order; the hypothesis is only needed when `Inline` is set.
+  Two versions of the export are modelled (the harness records which one /repo currently behaves like;
+  they coincide on inputs satisfying `Acyclic1`):
+  * the code BEFORE patch `fix-c17-export-cycles` (`exportResources`, …). For it the full statement
+    (`flatten_export_all`, `export_terminates_all`, `dataset_flatten_export_all`) is FALSE; the three
+    witnesses below prove the negations on the model, and the harness replays them on the Go code. What
+    is proved for all inputs is the statement under the decidable shape hypotheses `Acyclic1` (no cycle
+    consisting solely of once-referenced blank nodes, needed only with `Inline`) and
+    `NoSharedAnonymized` (cross-graph), for all four option combinations and every map iteration order;
+  * the code AFTER the patch (`exportResourcesV`, …): `flatten_export_repaired` is the FULL single-graph
+    statement with no hypothesis, `export_terminates_repaired` is unconditional; the dataset statement
+    still needs `NoSharedAnonymized` (`not_dataset_flatten_export_all_repaired`).
 -/
 import RdfModel.Props.C17Defs
 import RdfModel.Spec.GraphIso
@@ -181,6 +186,80 @@ theorem not_dataset_flatten_export_all : ¬ dataset_flatten_export_all := by
   simp [crossGraph, DQuad.map, Triple.map, Term.map] at h1 h2
   rw [← h1] at h2
   cases h2
+
+/-! ## the export after patch `fix-c17-export-cycles` (model functions with suffix `V`)
+
+  The repaired Go code keeps a set of the blank nodes it has described and makes a second pass over the
+  subject map. For it the single-graph property holds at FULL strength — no shape hypothesis — and the
+  export always terminates. The cross-graph defect of the dataset builder is untouched by the patch. -/
+
+/-- Repaired code: `ExportResource(s, opts)` returns for every input, every `s`, within depth `|T|+1`. -/
+theorem export_terminates_repaired (T : List (Triple β)) (opts : Opts) (s : Term β) :
+    ((build T).exportResourceV1 opts (T.length + 1) s).isSome := by
+  unfold Builder.exportResourceV1 Builder.exportResourceV
+  rw [Option.isSome_map, Option.isSome_map]
+  exact Proofs.C17.exportV_isSome T opts (T.length + 1) (Nat.le_refl _) s []
+
+/-- Repaired code, one graph, FULL statement of C17: for every list of triples, every option value, every
+    pair of iteration orders of the two loops and every state of the blank node factory, the export
+    terminates and its flattening is isomorphic to the input. -/
+theorem flatten_export_repaired (T : List (Triple β)) (opts : Opts) (ord1 ord2 : List (Term β))
+    (hord1 : ord1.Perm (build T).subjects) (hord2 : ord2.Perm (build T).subjects) (n : Nat) :
+    ∃ rs, (build T).exportResourcesV opts ord1 ord2 (T.length + 1) = some rs ∧
+      Iso (newTriplesList rs n).1 T :=
+  Proofs.C17.flatten_exportV T opts ord1 ord2 hord1 hord2 n
+
+/-- Repaired code, datasets: only the cross-graph hypothesis remains. -/
+theorem dataset_flatten_export_repaired (Q : List (DQuad β)) (opts : Opts) (gord : List (Option (Term β)))
+    (sord1 sord2 : Option (Term β) → List (Term β))
+    (hg : gord.Perm (dbuild Q).graphNames)
+    (hs1 : ∀ g ∈ gord, (sord1 g).Perm ((dbuild Q).builder g).subjects)
+    (hs2 : ∀ g ∈ gord, (sord2 g).Perm ((dbuild Q).builder g).subjects)
+    (hsh : NoSharedAnonymized Q opts) (n : Nat) :
+    ∃ rs, (dbuild Q).exportResourcesV opts gord sord1 sord2 (Q.length + 1) = some rs ∧
+      IsoQ (newQuadsList rs n).1 Q :=
+  Proofs.C17.dataset_flatten_exportV Q opts gord sord1 sord2 hg hs1 hs2 hsh n
+
+/-- The dataset statement for the repaired code without the cross-graph hypothesis. Still FALSE. -/
+def dataset_flatten_export_all_repaired : Prop :=
+  ∀ (Q : List (DQuad Nat)) (opts : Opts) (gord : List (Option (Term Nat)))
+    (sord1 sord2 : Option (Term Nat) → List (Term Nat)),
+    gord.Perm (dbuild Q).graphNames → (∀ g ∈ gord, (sord1 g).Perm ((dbuild Q).builder g).subjects) →
+    (∀ g ∈ gord, (sord2 g).Perm ((dbuild Q).builder g).subjects) → ∀ n,
+    ∃ rs, (dbuild Q).exportResourcesV opts gord sord1 sord2 (Q.length + 1) = some rs ∧ IsoQ (newQuadsList rs n).1 Q
+
+theorem cross_graph_split_repaired :
+    ((dbuild crossGraph).exportResourcesV Opts.default (dbuild crossGraph).graphNames
+        (fun g => ((dbuild crossGraph).builder g).subjects) (fun g => ((dbuild crossGraph).builder g).subjects) 3).map
+        (fun rs => (newQuadsList rs 0).1) =
+      some [⟨⟨Term.iri [1], [112], Term.bnode (BN.fresh 0)⟩, none⟩,
+            ⟨⟨Term.bnode (BN.fresh 1), [112], Term.iri [2]⟩, some (Term.iri [9])⟩] := by
+  decide
+
+theorem not_dataset_flatten_export_all_repaired : ¬ dataset_flatten_export_all_repaired := by
+  intro h
+  obtain ⟨rs, hrs, σ, _, hp⟩ := h crossGraph Opts.default (dbuild crossGraph).graphNames
+    (fun g => ((dbuild crossGraph).builder g).subjects) (fun g => ((dbuild crossGraph).builder g).subjects)
+    (List.Perm.refl _) (fun _ _ => List.Perm.refl _) (fun _ _ => List.Perm.refl _) 0
+  have hc := cross_graph_split_repaired
+  have hrs' : (dbuild crossGraph).exportResourcesV Opts.default (dbuild crossGraph).graphNames
+      (fun g => ((dbuild crossGraph).builder g).subjects) (fun g => ((dbuild crossGraph).builder g).subjects) 3 =
+      some rs := hrs
+  rw [hrs'] at hc
+  simp only [Option.map_some, Option.some.injEq] at hc
+  rw [hc] at hp
+  have h1 := hp.mem_iff (a := ⟨⟨Term.iri [1], [112], Term.bnode (BN.fresh 0)⟩, none⟩)
+  have h2 := hp.mem_iff (a := ⟨⟨Term.bnode (BN.fresh 1), [112], Term.iri [2]⟩, some (Term.iri [9])⟩)
+  simp [crossGraph, DQuad.map, Triple.map, Term.map] at h1 h2
+  rw [← h1] at h2
+  cases h2
+
+/-- the former witnesses, on the repaired export: nothing is dropped, nothing diverges -/
+example : ((build twoCycle).exportResourcesV Opts.default (build twoCycle).subjects (build twoCycle).subjects 3).map
+    (fun rs => (newTriplesList rs 0).1) =
+    some [⟨Term.bnode (BN.fresh 0), [112], Term.bnode (BN.orig 0)⟩, ⟨Term.bnode (BN.orig 0), [112], Term.bnode (BN.fresh 0)⟩] := by
+  decide
+example : ((build selfLoop).exportResourceV1 Opts.default 2 (Term.bnode 0)).isSome = true := by decide
 
 /-! ## rdfdescriptionutil.NewObjectValueListStatement -/
 
